@@ -299,6 +299,30 @@ pub fn gopts_strategy(p: OptProfile) -> BoxedStrategy<GOpts> {
 }
 
 impl GOpts {
+    /// Drops --isolate when fclones would reject it for this number of root arguments
+    /// (keeps clean-rejection discards rare).
+    pub fn fix_isolate(&mut self, nroots: usize) {
+        if !self.isolate {
+            return;
+        }
+        let rf_over = if self.transform.is_some() || !matches!(self.rf, RfOpt::Default | RfOpt::Over(_)) {
+            0
+        } else {
+            match self.rf {
+                RfOpt::Over(k) => k,
+                _ => 1,
+            }
+        };
+        let under_ok = match self.rf {
+            RfOpt::Under(k) => nroots >= k,
+            RfOpt::Unique => nroots >= 2,
+            _ => true,
+        };
+        if nroots <= rf_over || !under_ok {
+            self.isolate = false;
+        }
+    }
+
     pub fn rf_model(&self) -> Rf {
         match self.rf {
             RfOpt::Default => Rf::Default,
@@ -437,11 +461,11 @@ pub fn run_group(cd: &CaseDir, opts: &GOpts, roots: &[OsString], format: &str, e
 }
 
 pub fn root_args(n: usize) -> Vec<OsString> {
-    (0..n.max(1)).map(|i| OsString::from(format!("r{}", i))).collect()
+    (0..n.max(1)).map(|i| OsString::from(ROOT_NAMES[i % ROOT_NAMES.len()])).collect()
 }
 
 pub fn root_paths(tree: &Path, n: usize) -> Vec<PathBuf> {
-    (0..n.max(1)).map(|i| tree.join(format!("r{}", i))).collect()
+    (0..n.max(1)).map(|i| tree.join(ROOT_NAMES[i % ROOT_NAMES.len()])).collect()
 }
 
 /// Is this a clean rejection of the option combination (a discard), as opposed to a crash?
